@@ -76,7 +76,7 @@ func c07Gen(r *gen.Rand, big bool, quick bool) c07World {
 	}
 	scale := 1
 	if big {
-		scale = 12
+		scale = 5
 		if quick {
 			scale = 3
 		}
@@ -317,12 +317,12 @@ func init() {
 		r := c.Rng.Fork()
 		n := 16
 		if !c.Quick() {
-			n = 400
+			n = 160
 		}
 		for i := 0; i < n; i++ {
 			cw := c07Gen(r, i%8 == 7, c.Quick())
 			w := c07Build(cw)
-			cs := &c07Case{World: cw, Queries: c07Queries(r, cw, c.Quick())}
+			cs := &c07Case{World: cw, Queries: c07Queries(r, cw, c.Quick() || i%8 == 7)}
 			for j := range cs.Queries {
 				c07Run(w, &cs.Queries[j])
 			}
